@@ -486,7 +486,7 @@ func (s *scanner) SkipToEOL() {
 		b, err := s.Next()
 		if err != nil {
 			return
-		} else if b == 10 { // LF
+		} else if b == 10 || b == 12 { // LF or FF
 			return
 		} else if b == 13 { // CR or CR+LF
 			s.SkipOptionalByte(10)
